@@ -109,6 +109,15 @@ def get_matching_impls(fcp: FcpV2, protocol: str) -> List[Impl]:
     return fcp.get_matching_impls_or_default(protocol)
 
 
+def get_struct_impls(fcp: FcpV2, protocol: str) -> List[Impl]:
+    """Get one impl per struct, a struct bound several times is only defined once."""
+    impls: Dict[str, Impl] = {}
+    for impl in get_matching_impls(fcp, protocol):
+        impls.setdefault(impl.type, impl)
+
+    return list(impls.values())
+
+
 def get_struct_from_type(fcp: FcpV2, type: str) -> Struct:
     """Get struct from type name."""
     return fcp.get_type(StructType(type)).unwrap()
@@ -134,6 +143,7 @@ def create_template_environment(
     env = jinja2.Environment(loader=loader)
     env.globals["to_wrapper_cpp_type"] = to_wrapper_cpp_type
     env.globals["get_matching_impls"] = get_matching_impls
+    env.globals["get_struct_impls"] = get_struct_impls
     env.globals["get_struct_from_type"] = get_struct_from_type
     env.globals["encode_version"] = encode_version
     env.globals["to_highest_power_of_two"] = _to_highest_power_of_two
